@@ -1,5 +1,869 @@
-(* Proofs/ExprSem.v — under construction *)
-From Coq Require Import List NArith ZArith Bool Lia.
+(* Proofs/ExprSem.v — C02: the token-stream recursive-descent expression
+   evaluator (Model/Eval.v, section Expression and [evaluate_expression])
+   computes the value of the obvious fold [den] over an abstract syntax tree,
+   for every expression tree and every legal parenthesisation.
+
+   Layers:
+     L1  cursor lemmas (peek/next/accept/try/expect on a known token list)
+     L2  tiers 7 and 6: atoms, parentheses, ABS/INT, one unary operator
+     L3  one left-folding binary tier, generically ([tbody], [body_op], [body_stop])
+     L4  all tiers: [renders_sem], [expr_sem_gen], [expr_sem]
+     L5  corollaries: redundant parentheses, the documented operator rules,
+         non-vacuity examples.
+
+   No fuel-monotonicity lemma is needed: every statement has the form
+   "there is f0 such that for every fuel >= f0 ...", and the loop-generalised
+   statement [LSem] counts the loop iterations that an operand consumes. *)
+From Coq Require Import List NArith ZArith Bool Lia Arith.
 From Abasic Require Import Model.Bytes Model.Num Model.Token Model.Data Model.Lexer Gen.Tables
      Model.State Model.Eval Model.Interp Proofs.Monad Proofs.Frames.
 Import ListNotations.
+Local Open Scope nat_scope.
+
+(* ------------------------------------------------------------------ *)
+(* Syntax trees, their token spellings, and the reference fold *)
+
+Inductive binop :=
+| BOr | BAnd | BCmp (o : eq_op) | BAddSub (o : addsub_op) | BMulDiv (o : muldiv_op) | BPow.
+
+Inductive expr :=
+| ENum (x : f64) | EStr (s : bytes) | EVar (name : bytes)
+| EUn (op : unary_op) (e : expr)
+| EBin (op : binop) (a b : expr)
+| EAbs (e : expr) | EInt (e : expr)
+| EParen (e : expr).
+
+Definition tier_of (op : binop) : nat :=
+  match op with
+  | BOr => 0 | BAnd => 1 | BCmp _ => 2 | BAddSub _ => 3 | BMulDiv _ => 4 | BPow => 5
+  end.
+
+Definition eq_token (o : eq_op) : token :=
+  match o with
+  | OEqualTo => TEquals | OLessThan => TLessThan | OLessThanOrEqualTo => TLessThanOrEqualTo
+  | OGreaterThan => TGreaterThan | OGreaterThanOrEqualTo => TGreaterThanOrEqualTo
+  | ONotEqualTo => TNotEquals
+  end.
+
+Definition binop_token (op : binop) : token :=
+  match op with
+  | BOr => TOr
+  | BAnd => TAnd
+  | BCmp o => eq_token o
+  | BAddSub OAdd => TPlus
+  | BAddSub OSubtract => TMinus
+  | BMulDiv OMultiply => TMultiply
+  | BMulDiv ODivide => TDivide
+  | BPow => TCaret
+  end.
+
+Definition unary_token (op : unary_op) : token :=
+  match op with UPositive => TPlus | UNegative => TMinus | UNot => TNot end.
+
+(* [Renders lvl e ts]: [ts] spells [e] and the grammar accepts it at tier [lvl]
+   (0 = OR ... 5 = ^, 6 = unary, 7 = atoms). *)
+Inductive Renders : nat -> expr -> list token -> Prop :=
+| R_num x : Renders 7 (ENum x) [TNumber x]
+| R_str b : Renders 7 (EStr b) [TString b]
+| R_var name : Renders 7 (EVar name) [TSymbol name]
+| R_paren e ts : Renders 0 e ts -> Renders 7 (EParen e) (TLeftParen :: ts ++ [TRightParen])
+| R_abs e ts : Renders 0 e ts ->
+    Renders 7 (EAbs e) (TSymbol (bs "ABS") :: TLeftParen :: ts ++ [TRightParen])
+| R_int e ts : Renders 0 e ts ->
+    Renders 7 (EInt e) (TSymbol (bs "INT") :: TLeftParen :: ts ++ [TRightParen])
+| R_un op e ts : Renders 7 e ts -> Renders 6 (EUn op e) (unary_token op :: ts)
+| R_bin op a b ta tb :
+    Renders (tier_of op) a ta -> Renders (S (tier_of op)) b tb ->
+    Renders (tier_of op) (EBin op a b) (ta ++ binop_token op :: tb)
+| R_incl k e ts : k < 7 -> Renders (S k) e ts -> Renders k e ts.
+
+(* The tier whose loop consumes a token, if any. *)
+Definition tok_tier (t : token) : option nat :=
+  match t with
+  | TOr => Some 0
+  | TAnd => Some 1
+  | TEquals | TNotEquals | TLessThan | TLessThanOrEqualTo | TGreaterThan
+  | TGreaterThanOrEqualTo => Some 2
+  | TPlus | TMinus => Some 3
+  | TMultiply | TDivide => Some 4
+  | TCaret => Some 5
+  | _ => None
+  end.
+
+(* [stops lvl rest]: the first token of [rest] (if any) is not a binary operator
+   of tier >= lvl and is not "(" . *)
+Definition stops (lvl : nat) (rest : list token) : bool :=
+  match rest with
+  | [] => true
+  | TLeftParen :: _ => false
+  | t :: _ => match tok_tier t with Some k => k <? lvl | None => true end
+  end.
+
+Fixpoint pdepth (e : expr) : nat :=
+  match e with
+  | ENum _ | EStr _ | EVar _ => 0
+  | EUn _ a => pdepth a
+  | EBin _ a b => Nat.max (pdepth a) (pdepth b)
+  | EAbs a | EInt a | EParen a => S (pdepth a)
+  end.
+
+(* The operator applications of operators.rs, as they are in the model. *)
+Definition apply_op (op : binop) : value -> value -> M value :=
+  match op with
+  | BOr => eval_or
+  | BAnd => eval_and
+  | BCmp o => eval_eq o
+  | BAddSub o => eval_addsub o
+  | BMulDiv o => eval_muldiv o
+  | BPow => eval_pow
+  end.
+
+Definition lookup_var (s : interp) (name : bytes) : value :=
+  match find_in_frames name (rev (stack s)) with
+  | Some v => v
+  | None => match alist_get name (variables s) with
+            | Some v => v
+            | None => default_value name
+            end
+  end.
+
+(* The reference fold: strict, left operand first. *)
+Fixpoint den (s : interp) (e : expr) : res value :=
+  match e with
+  | ENum x => Ok (VNum x)
+  | EStr b => Ok (VStr b)
+  | EVar name => Ok (lookup_var s name)
+  | EUn op a =>
+      match den s a with
+      | Ok v => fst (eval_unary op v s)
+      | other => other
+      end
+  | EBin op a b =>
+      match den s a with
+      | Ok v => match den s b with
+                | Ok w => fst (apply_op op v w s)
+                | other => other
+                end
+      | other => other
+      end
+  | EAbs a =>
+      match den s a with
+      | Ok (VNum x) => Ok (VNum (f64_abs x))
+      | Ok (VStr _) => Err ETypeMismatch None
+      | other => other
+      end
+  | EInt a =>
+      match den s a with
+      | Ok (VNum x) => Ok (VNum (f64_floor x))
+      | Ok (VStr _) => Err ETypeMismatch None
+      | other => other
+      end
+  | EParen a => den s a
+  end.
+
+(* ------------------------------------------------------------------ *)
+(* Generic helpers *)
+
+Lemma bind_ok {A B} (m : M A) (K : A -> M B) s0 a s1 :
+  m s0 = (Ok a, s1) -> bind m K s0 = K a s1.
+Proof. intros H; unfold bind; rewrite H; reflexivity. Qed.
+
+Lemma bind_modify_run {B} g (K : unit -> M B) s : bind (modify g) K s = K tt (g s).
+Proof. reflexivity. Qed.
+
+Lemma bind_get_run {A B} (f : interp -> A) (K : A -> M B) s : bind (get f) K s = K (f s) s.
+Proof. reflexivity. Qed.
+
+Lemma bind_run {A B} (m : M A) (K : A -> M B) s0 R s1 :
+  m s0 = (R, s1) ->
+  bind m K s0 = match R with
+                | Ok a => K a s1
+                | Err e l => (Err e l, s1)
+                | Panic p => (Panic p, s1)
+                | OutOfFuel => (OutOfFuel, s1)
+                | OracleMiss => (OracleMiss, s1)
+                end.
+Proof. intros H; unfold bind; rewrite H; destruct R; reflexivity. Qed.
+
+Lemma repeat_m_S {St R} k (body : St -> M (St + R)) acc :
+  repeat_m (S k) body acc =
+  bind (body acc) (fun r => match r with inl acc' => repeat_m k body acc' | inr r => ret r end).
+Proof. reflexivity. Qed.
+
+Lemma evaluate_expression_S f n :
+  evaluate_expression (S f) n =
+  if Nat.eqb n max_nesting then fail EStackOverflow
+  else logical_or_expression f (evaluate_expression f (S n)).
+Proof. reflexivity. Qed.
+
+Lemma skipn_cons_nth {A} (l : list A) i t l' :
+  skipn i l = t :: l' -> nth_error l i = Some t /\ skipn (S i) l = l'.
+Proof.
+  revert l; induction i as [|i IH]; intros [|x l] H; cbn in H; try discriminate.
+  - inversion H; subst; split; reflexivity.
+  - apply IH in H. exact H.
+Qed.
+
+Lemma skipn_nil_nth {A} (l : list A) i : skipn i l = [] -> nth_error l i = None.
+Proof.
+  revert l; induction i as [|i IH]; intros [|x l] H; cbn in *; try discriminate; auto.
+Qed.
+
+Lemma skipn_app_len {A} (l a b : list A) i :
+  skipn i l = a ++ b -> skipn (i + length a) l = b.
+Proof.
+  revert i; induction a as [|x a IH]; intros i H; cbn in *.
+  - rewrite Nat.add_0_r; exact H.
+  - apply skipn_cons_nth in H. destruct H as [_ H]. apply IH in H.
+    rewrite Nat.add_succ_r. exact H.
+Qed.
+
+(* ------------------------------------------------------------------ *)
+(* L1: the token cursor on a known token list.
+
+   [at_idx s i r o] is the state [s] with the cursor at token index [i] of the
+   current line, read counter [r] and output list [o]; these are the only
+   components an expression evaluation changes. *)
+
+Definition at_idx (s : interp) (i r : nat) (o : list output) : interp :=
+  set_outputs o (set_reads r (set_loc (mkloc (loc_line (loc s)) i) s)).
+
+Lemma at_idx_at_idx s i r o i' r' o' :
+  at_idx (at_idx s i r o) i' r' o' = at_idx s i' r' o'.
+Proof. reflexivity. Qed.
+
+Lemma at_idx_self s : at_idx s (loc_idx (loc s)) (reads s) (outputs s) = s.
+Proof. destruct s as [? ? ? [? ?] ? ? ? ? ? ? ? ? ? ? ? ? ? ? ?]; reflexivity. Qed.
+
+Section Cursor.
+  Variable s : interp.
+  Variable toks : list token.
+  Hypothesis Htoks : fst (cur_tokens s) = Ok toks.
+
+  Lemma cur_tokens_at i r o : cur_tokens (at_idx s i r o) = (Ok toks, at_idx s i r o).
+  Proof.
+    revert Htoks. unfold cur_tokens, bind, get, tokens_for_line. cbn.
+    destruct (loc_line (loc s)); cbn.
+    - destruct (toks_get n (st_toks s)); cbn; congruence.
+    - congruence.
+  Qed.
+
+  Lemma peek_at i r o :
+    peek_next_token (at_idx s i r o) = (Ok (nth_error toks i), at_idx s i (S r) o).
+  Proof.
+    unfold peek_next_token. rewrite bind_modify_run.
+    change (set_reads (S (reads (at_idx s i r o))) (at_idx s i r o)) with (at_idx s i (S r) o).
+    erewrite bind_ok by apply cur_tokens_at. reflexivity.
+  Qed.
+
+  Lemma advance_at i r o : advance (at_idx s i r o) = (Ok tt, at_idx s (S i) r o).
+  Proof. reflexivity. Qed.
+
+  Lemma next_some i r o t : nth_error toks i = Some t ->
+    next_token (at_idx s i r o) = (Ok (Some t), at_idx s (S i) (S r) o).
+  Proof.
+    intros H. unfold next_token. erewrite bind_ok by apply peek_at. rewrite H.
+    erewrite bind_ok by apply advance_at. reflexivity.
+  Qed.
+
+  Lemma next_unwrapped_some i r o t : nth_error toks i = Some t ->
+    next_unwrapped_token (at_idx s i r o) = (Ok t, at_idx s (S i) (S r) o).
+  Proof.
+    intros H. unfold next_unwrapped_token. erewrite bind_ok by (apply next_some; eassumption).
+    reflexivity.
+  Qed.
+
+  Lemma expect_ok i r o t e : nth_error toks i = Some t -> token_eqb t e = true ->
+    expect_next_token e (at_idx s i r o) = (Ok tt, at_idx s (S i) (S r) o).
+  Proof.
+    intros H E. unfold expect_next_token.
+    erewrite bind_ok by (apply next_unwrapped_some; eassumption). rewrite E. reflexivity.
+  Qed.
+
+  Lemma accept_yes i r o t e : nth_error toks i = Some t -> token_eqb t e = true ->
+    accept_next_token e (at_idx s i r o) = (Ok true, at_idx s (S i) (S r) o).
+  Proof.
+    intros H E. unfold accept_next_token. erewrite bind_ok by apply peek_at. rewrite H, E.
+    erewrite bind_ok by apply advance_at. reflexivity.
+  Qed.
+
+  Lemma accept_no i r o e :
+    (forall t, nth_error toks i = Some t -> token_eqb t e = false) ->
+    accept_next_token e (at_idx s i r o) = (Ok false, at_idx s i (S r) o).
+  Proof.
+    intros H. unfold accept_next_token. erewrite bind_ok by apply peek_at.
+    destruct (nth_error toks i) as [t|]; [rewrite (H t eq_refl)|]; reflexivity.
+  Qed.
+
+  Lemma peek_is_at i r o e :
+    peek_is e (at_idx s i r o) =
+    (Ok (match nth_error toks i with Some t => token_eqb t e | None => false end),
+     at_idx s i (S r) o).
+  Proof. unfold peek_is. erewrite bind_ok by apply peek_at. reflexivity. Qed.
+
+  Lemma try_some {A} (f : token -> option A) i r o t a :
+    nth_error toks i = Some t -> f t = Some a ->
+    try_next_token f (at_idx s i r o) = (Ok (Some a), at_idx s (S i) (S r) o).
+  Proof.
+    intros H E. unfold try_next_token. erewrite bind_ok by apply peek_at. rewrite H, E.
+    erewrite bind_ok by apply advance_at. reflexivity.
+  Qed.
+
+  Lemma try_none {A} (f : token -> option A) i r o :
+    (forall t, nth_error toks i = Some t -> f t = None) ->
+    try_next_token f (at_idx s i r o) = (Ok None, at_idx s i (S r) o).
+  Proof.
+    intros H. unfold try_next_token. erewrite bind_ok by apply peek_at.
+    destruct (nth_error toks i) as [t|]; [rewrite (H t eq_refl)|]; reflexivity.
+  Qed.
+
+  Lemma accept_as_yes {O} (x : O) i r o t e :
+    nth_error toks i = Some t -> token_eqb t e = true ->
+    accept_as e x (at_idx s i r o) = (Ok (Some x), at_idx s (S i) (S r) o).
+  Proof.
+    intros H E. unfold accept_as. erewrite bind_ok by (eapply accept_yes; eassumption).
+    reflexivity.
+  Qed.
+
+  Lemma accept_as_no {O} (x : O) i r o e :
+    (forall t, nth_error toks i = Some t -> token_eqb t e = false) ->
+    accept_as e x (at_idx s i r o) = (Ok None, at_idx s i (S r) o).
+  Proof.
+    intros H. unfold accept_as. erewrite bind_ok by (apply accept_no; assumption).
+    reflexivity.
+  Qed.
+End Cursor.
+
+(* ------------------------------------------------------------------ *)
+(* The tiers of the evaluator, indexed by number; one left-folding tier *)
+
+Lemma bind_assoc {A B C} (m : M A) (f : A -> M B) (g : B -> M C) s :
+  bind (bind m f) g s = bind m (fun a => bind (f a) g) s.
+Proof. unfold bind; destruct (m s) as [[a| | | |] s1]; reflexivity. Qed.
+
+(* The body of the loop of [tier]. *)
+Definition tbody {O} (get_op : M (option O)) (operand : M value)
+    (apply : O -> value -> value -> M value) (v : value) : M (value + value) :=
+  o <- get_op ;;
+  match o with
+  | None => ret (inr v)
+  | Some op => w <- operand ;; v' <- apply op v w ;; ret (inl v')
+  end.
+
+Lemma tier_tbody {O} F (g : M (option O)) operand ap :
+  tier F g operand ap = bind operand (repeat_m F (tbody g operand ap)).
+Proof. reflexivity. Qed.
+
+(* [ev k F n]: the evaluator of tier [k], with loop fuel and recursion fuel [F],
+   at nesting counter [n] (so that a parenthesis calls
+   [evaluate_expression F (S n)]). *)
+Definition ev (k F n : nat) : M value :=
+  let rec := evaluate_expression F (S n) in
+  match k with
+  | 0 => logical_or_expression F rec
+  | 1 => logical_and_expression F rec
+  | 2 => equality_expression F rec
+  | 3 => plus_or_minus_expression F rec
+  | 4 => multiply_or_divide_expression F rec
+  | 5 => exponent_expression F rec
+  | 6 => unary_operator F rec
+  | _ => parenthesized_expression F rec
+  end.
+
+Definition body (k F n : nat) : value -> M (value + value) :=
+  match k with
+  | 0 => tbody (accept_as TOr tt) (ev 1 F n) (fun _ => eval_or)
+  | 1 => tbody (accept_as TAnd tt) (ev 2 F n) (fun _ => eval_and)
+  | 2 => tbody (try_next_token eq_of_token) (ev 3 F n) eval_eq
+  | 3 => tbody (try_next_token addsub_of_token) (ev 4 F n) eval_addsub
+  | 4 => tbody (try_next_token muldiv_of_token) (ev 5 F n) eval_muldiv
+  | _ => tbody (accept_as TCaret tt) (ev 6 F n) (fun _ => eval_pow)
+  end.
+
+Lemma ev_tier k F n : k <= 5 ->
+  ev k F n = bind (ev (S k) F n) (repeat_m F (body k F n)).
+Proof. intros H. do 6 (destruct k as [|k]; [reflexivity|]). lia. Qed.
+
+Lemma ev_6 F n : ev 6 F n = unary_operator F (evaluate_expression F (S n)).
+Proof. reflexivity. Qed.
+
+Lemma ev_7 F n : ev 7 F n = parenthesized_expression F (evaluate_expression F (S n)).
+Proof. reflexivity. Qed.
+
+Lemma evaluate_expression_ev F n : n < max_nesting ->
+  evaluate_expression (S F) n = ev 0 F n.
+Proof.
+  intros H. rewrite evaluate_expression_S.
+  destruct (Nat.eqb_spec n max_nesting); [lia | reflexivity].
+Qed.
+
+(* Token facts *)
+Lemma stops_mono k k' rest : stops k rest = true -> k <= k' -> stops k' rest = true.
+Proof.
+  intros H Hk. destruct rest as [|t rest]; [reflexivity|].
+  destruct t; cbn [stops tok_tier] in *; auto; apply Nat.ltb_lt in H; apply Nat.ltb_lt; lia.
+Qed.
+
+Lemma stops_op op l : stops (S (tier_of op)) (binop_token op :: l) = true.
+Proof. destruct op as [| |[]|[]|[]|]; reflexivity. Qed.
+
+Lemma unary_of_unary_token op : unary_of_token (unary_token op) = Some op.
+Proof. destruct op; reflexivity. Qed.
+
+Lemma renders7_head e ts : Renders 7 e ts ->
+  exists t ts', ts = t :: ts' /\ unary_of_token t = None.
+Proof.
+  intros H. inversion H; subst; try (eexists; eexists; split; [reflexivity | reflexivity]).
+  - destruct op; discriminate.
+  - lia.
+Qed.
+
+(* ------------------------------------------------------------------ *)
+(* The semantic statements, relative to a base state [s] whose current line
+   has tokens [toks]. *)
+
+Definition is_warning (x : output) : Prop :=
+  match x with OWarning _ _ => True | _ => False end.
+
+Definition num_of (R : res value) : res f64 :=
+  match R with
+  | Ok (VNum x) => Ok x
+  | Ok (VStr _) => Err ETypeMismatch None
+  | Err e l => Err e l
+  | Panic p => Panic p
+  | OutOfFuel => OutOfFuel
+  | OracleMiss => OracleMiss
+  end.
+
+Section Sem.
+  Variable s : interp.
+  Variable toks : list token.
+  Hypothesis Htoks : fst (cur_tokens s) = Ok toks.
+
+  (* what may happen to the output list: nothing, or (warnings on) some
+     warning records are appended *)
+  Definition W (o o' : list output) : Prop :=
+    if enable_warnings s then exists l, o' = o ++ l /\ Forall is_warning l else o' = o.
+
+  Lemma W_refl o : W o o.
+  Proof.
+    unfold W. destruct (enable_warnings s); [|reflexivity].
+    exists []. rewrite app_nil_r. split; [reflexivity | constructor].
+  Qed.
+
+  Lemma W_trans o1 o2 o3 : W o1 o2 -> W o2 o3 -> W o1 o3.
+  Proof.
+    unfold W. destruct (enable_warnings s); [|congruence].
+    intros (l1 & -> & H1) (l2 & -> & H2). exists (l1 ++ l2). rewrite app_assoc.
+    split; [reflexivity | apply Forall_app; split; assumption].
+  Qed.
+
+  (* [p] is outcome [R] in a state that differs from [s] only in the cursor
+     index, the read counter and the outputs; on success the cursor is [iend]. *)
+  Definition lands {A} (p : res A * interp) (R : res A) (iend : nat) (o : list output) : Prop :=
+    exists i' r' o', p = (R, at_idx s i' r' o') /\ (forall v, R = Ok v -> i' = iend) /\ W o o'.
+
+  (* operators are pure *)
+  Lemma apply_op_at op v w i r o :
+    apply_op op v w (at_idx s i r o) = (fst (apply_op op v w s), at_idx s i r o).
+  Proof.
+    destruct op as [| |c|a|m|]; cbn [apply_op]; try reflexivity.
+    - unfold eval_eq; destruct v, w; reflexivity.
+    - unfold eval_addsub; destruct v, w; reflexivity.
+    - unfold eval_muldiv; destruct v, w, m; try reflexivity.
+      destruct (f64_eqb x0 f64_zero); reflexivity.
+    - unfold eval_pow; destruct v, w; try reflexivity.
+      rewrite !bind_get_run. change (pow_oracle (at_idx s i r o)) with (pow_oracle s).
+      destruct (pow_lookup _ _ _); reflexivity.
+  Qed.
+
+  Lemma eval_unary_at op v i r o :
+    eval_unary op v (at_idx s i r o) = (fst (eval_unary op v s), at_idx s i r o).
+  Proof. destruct op, v; reflexivity. Qed.
+
+  (* ---- L3: one step of a binary tier ---- *)
+
+  Lemma body_op op F n v i r o :
+    nth_error toks i = Some (binop_token op) ->
+    body (tier_of op) F n v (at_idx s i r o) =
+    bind (ev (S (tier_of op)) F n)
+         (fun w => bind (apply_op op v w) (fun v' => ret (inl v'))) (at_idx s (S i) (S r) o).
+  Proof.
+    intros H. destruct op as [| |c|a|m|]; cbn [tier_of body apply_op]; unfold tbody.
+    - erewrite bind_ok by (eapply accept_as_yes; [eassumption | eassumption | reflexivity]).
+      reflexivity.
+    - erewrite bind_ok by (eapply accept_as_yes; [eassumption | eassumption | reflexivity]).
+      reflexivity.
+    - erewrite bind_ok by (eapply try_some; [eassumption | eassumption | destruct c; reflexivity]).
+      reflexivity.
+    - erewrite bind_ok by (eapply try_some; [eassumption | eassumption | destruct a; reflexivity]).
+      reflexivity.
+    - erewrite bind_ok by (eapply try_some; [eassumption | eassumption | destruct m; reflexivity]).
+      reflexivity.
+    - erewrite bind_ok by (eapply accept_as_yes; [eassumption | eassumption | reflexivity]).
+      reflexivity.
+  Qed.
+
+  Lemma stops_nth k i : stops k (skipn i toks) = true ->
+    forall t, nth_error toks i = Some t ->
+      t <> TLeftParen /\ match tok_tier t with Some k' => k' < k | None => True end.
+  Proof.
+    intros H t Ht. destruct (skipn i toks) as [|t' l] eqn:E.
+    - apply skipn_nil_nth in E. congruence.
+    - apply skipn_cons_nth in E. destruct E as [E _]. rewrite E in Ht. inversion Ht; subst t'.
+      destruct t; cbn [stops tok_tier] in *; try discriminate;
+        (split; [discriminate | try exact I; apply Nat.ltb_lt; assumption]).
+  Qed.
+
+  Lemma body_stop k F n v i r o : k <= 5 -> stops k (skipn i toks) = true ->
+    body k F n v (at_idx s i r o) = (Ok (inr v), at_idx s i (S r) o).
+  Proof.
+    intros Hk Hs. pose proof (stops_nth _ _ Hs) as Hn.
+    do 6 (destruct k as [|k];
+      [ cbn [body]; unfold tbody;
+        erewrite bind_ok by
+          (first [eapply accept_as_no | eapply try_none];
+           [eassumption |
+            intros t Ht; destruct (Hn t Ht) as [_ Hlt];
+            destruct t; cbn [tok_tier] in Hlt; try reflexivity; lia]);
+        reflexivity | ]).
+    lia.
+  Qed.
+
+  Lemma loop_op op F n j v i r o :
+    nth_error toks i = Some (binop_token op) ->
+    repeat_m (S j) (body (tier_of op) F n) v (at_idx s i r o) =
+    bind (ev (S (tier_of op)) F n)
+      (fun w => bind (apply_op op v w) (fun v' => repeat_m j (body (tier_of op) F n) v'))
+      (at_idx s (S i) (S r) o).
+  Proof.
+    intros H. rewrite repeat_m_S. unfold bind at 1. rewrite body_op by assumption. unfold bind.
+    destruct (ev _ F n _) as [[w| | | |] s1]; try reflexivity.
+    destruct (apply_op op v w s1) as [[v'| | | |] s2]; reflexivity.
+  Qed.
+
+  Lemma loop_stop k F n j v i r o : k <= 5 -> stops k (skipn i toks) = true ->
+    repeat_m (S j) (body k F n) v (at_idx s i r o) = (Ok v, at_idx s i (S r) o).
+  Proof.
+    intros Hk Hs. rewrite repeat_m_S. erewrite bind_ok by (apply body_stop; assumption).
+    reflexivity.
+  Qed.
+
+  (* ---- the two statements ---- *)
+
+  (* [Sem k e ts]: the tier-[k] evaluator, started at a spelling [ts] of [e]
+     followed by something that no loop of tier >= k consumes, returns [den s e]. *)
+  Definition Sem (k : nat) (e : expr) (ts : list token) : Prop :=
+    forall n i rest, skipn i toks = ts ++ rest -> stops k rest = true ->
+      n + pdepth e < max_nesting ->
+    exists f0, forall F, f0 <= F -> forall r o,
+      lands (ev k F n (at_idx s i r o)) (den s e) (i + length ts) o.
+
+  (* [LSem k e ts] (k <= 5), the loop-generalised statement: evaluating the
+     operand at the head of [ts] and then running the loop of tier [k] is the same
+     as running the loop of tier [k] from the value [den s e] after [ts]; [d] is the
+     number of loop iterations that [ts] accounts for. *)
+  Definition LSem (k : nat) (e : expr) (ts : list token) : Prop :=
+    forall n i rest, skipn i toks = ts ++ rest -> stops (S k) rest = true ->
+      n + pdepth e < max_nesting ->
+    exists d f0, forall F, f0 <= F -> forall j r o,
+      match den s e with
+      | Ok v => exists r' o',
+          bind (ev (S k) F n) (repeat_m (d + j) (body k F n)) (at_idx s i r o) =
+          repeat_m j (body k F n) v (at_idx s (i + length ts) r' o') /\ W o o'
+      | R => lands (bind (ev (S k) F n) (repeat_m (d + j) (body k F n)) (at_idx s i r o)) R 0 o
+      end.
+
+  Definition P (k : nat) (e : expr) (ts : list token) : Prop :=
+    if k <=? 5 then LSem k e ts else Sem k e ts.
+
+  Lemma lands_err {A} (R : res A) i r o o0 iend :
+    (forall v, R <> Ok v) -> W o0 o -> lands (R, at_idx s i r o) R iend o0.
+  Proof.
+    intros H HW. exists i, r, o. split; [reflexivity|]. split; [|assumption].
+    intros v E. destruct (H v E).
+  Qed.
+
+  Lemma lands_any {A} p (R : res A) i1 i2 o :
+    (forall v, R <> Ok v) -> lands p R i1 o -> lands p R i2 o.
+  Proof.
+    intros H (i' & r' & o' & E & _ & HW). exists i', r', o'. split; [assumption|].
+    split; [|assumption]. intros v Ev. destruct (H v Ev).
+  Qed.
+
+  Lemma LSem_Sem k e ts : k <= 5 -> LSem k e ts -> Sem k e ts.
+  Proof.
+    intros Hk HL n i rest Hsk Hst Hn.
+    destruct (HL n i rest Hsk (stops_mono _ _ _ Hst (Nat.le_succ_diag_r k)) Hn) as (d & f0 & H).
+    exists (Nat.max f0 (S d)). intros F HF r o.
+    rewrite ev_tier by assumption.
+    specialize (H F ltac:(lia) (F - d) r o).
+    replace (d + (F - d)) with F in H by lia.
+    destruct (den s e) as [v|er l|p| |];
+      try (eapply lands_any; [discriminate | exact H]).
+    destruct H as (r' & o' & H & HW). rewrite H.
+    destruct (F - d) as [|j] eqn:E; [lia|].
+    rewrite loop_stop; [| assumption |].
+    - exists (i + length ts), (S r'), o'. split; [reflexivity|]. split; [reflexivity | assumption].
+    - rewrite (skipn_app_len _ _ _ _ Hsk). assumption.
+  Qed.
+
+  Lemma Sem_LSem k e ts : k <= 5 -> Sem (S k) e ts -> LSem k e ts.
+  Proof.
+    intros Hk HS n i rest Hsk Hst Hn.
+    destruct (HS n i rest Hsk Hst Hn) as (f0 & H).
+    exists 0, f0. intros F HF j r o.
+    destruct (H F HF r o) as (i' & r' & o' & E & Hi & HW).
+    erewrite bind_run by exact E.
+    destruct (den s e) as [v|er l|p| |].
+    - rewrite (Hi v eq_refl). exists r', o'. split; [reflexivity | assumption].
+    - apply lands_err; [discriminate | assumption].
+    - apply lands_err; [discriminate | assumption].
+    - apply lands_err; [discriminate | assumption].
+    - apply lands_err; [discriminate | assumption].
+  Qed.
+
+  Lemma P_Sem k e ts : P k e ts -> Sem k e ts.
+  Proof.
+    unfold P. destruct (Nat.leb_spec k 5); [apply LSem_Sem; assumption | auto].
+  Qed.
+
+  (* ---- L2: tiers 7 and 6 ---- *)
+
+  Lemma paren_no F rec i r o t :
+    nth_error toks i = Some t -> token_eqb t TLeftParen = false ->
+    parenthesized_expression F rec (at_idx s i r o) = expression_term F rec (at_idx s i (S r) o).
+  Proof.
+    intros H E. unfold parenthesized_expression.
+    erewrite bind_ok by (eapply accept_no; [eassumption | intros t' Ht'; congruence]).
+    reflexivity.
+  Qed.
+
+  Lemma sem_num x : Sem 7 (ENum x) [TNumber x].
+  Proof.
+    intros n i rest Hsk Hst Hn. exists 0. intros F _ r o.
+    apply skipn_cons_nth in Hsk. destruct Hsk as [Hnth _].
+    rewrite ev_7. erewrite paren_no by (try eassumption; reflexivity).
+    unfold expression_term.
+    erewrite bind_ok by (eapply next_unwrapped_some; eassumption).
+    exists (S i), (S (S r)), o. split; [reflexivity|]. split; [|apply W_refl].
+    intros; cbn [length]; lia.
+  Qed.
+
+  Lemma sem_str b : Sem 7 (EStr b) [TString b].
+  Proof.
+    intros n i rest Hsk Hst Hn. exists 0. intros F _ r o.
+    apply skipn_cons_nth in Hsk. destruct Hsk as [Hnth _].
+    rewrite ev_7. erewrite paren_no by (try eassumption; reflexivity).
+    unfold expression_term.
+    erewrite bind_ok by (eapply next_unwrapped_some; eassumption).
+    exists (S i), (S (S r)), o. split; [reflexivity|]. split; [|apply W_refl].
+    intros; cbn [length]; lia.
+  Qed.
+
+  Lemma warn_at msg i r o :
+    exists o', warn msg (at_idx s i r o) = (Ok tt, at_idx s i r o') /\ W o o'.
+  Proof.
+    unfold warn, W. rewrite bind_get_run.
+    change (enable_warnings (at_idx s i r o)) with (enable_warnings s).
+    destruct (enable_warnings s).
+    - exists (o ++ [OWarning msg (loc_line (loc s))]). split; [reflexivity|].
+      eexists; split; [reflexivity|]. repeat constructor.
+    - exists o. split; reflexivity.
+  Qed.
+
+  Lemma find_var_at name i r o :
+    find_variable_value_in_stack name (at_idx s i r o) =
+    (Ok (find_in_frames name (rev (stack s))), at_idx s i r o).
+  Proof. reflexivity. Qed.
+
+  Lemma sem_var name : Sem 7 (EVar name) [TSymbol name].
+  Proof.
+    intros n i rest Hsk Hst Hn. exists 0. intros F _ r o.
+    apply skipn_cons_nth in Hsk. destruct Hsk as [Hnth Hsk].
+    rewrite ev_7. erewrite paren_no by (try eassumption; reflexivity).
+    unfold expression_term.
+    erewrite bind_ok by (eapply next_unwrapped_some; eassumption).
+    cbv beta iota. erewrite bind_ok by (eapply peek_is_at; eassumption).
+    assert (Hp : match nth_error toks (S i) with
+                 | Some t => token_eqb t TLeftParen | None => false end = false).
+    { destruct (nth_error toks (S i)) as [t|] eqn:E; [|reflexivity].
+      rewrite <- Hsk in Hst. destruct (stops_nth _ _ Hst t E) as [Hne _].
+      destruct t; try reflexivity. congruence. }
+    rewrite Hp.
+    erewrite bind_ok by apply find_var_at.
+    cbn [den]. unfold lookup_var.
+    destruct (find_in_frames name (rev (stack s))) as [v|].
+    - exists (S i), (S (S (S r))), o. split; [reflexivity|]. split; [|apply W_refl].
+      intros; cbn [length]; lia.
+    - rewrite !bind_get_run.
+      match goal with |- context [bind (if ?c then warn ?m else ret tt)] =>
+        assert (Hw : exists o', (if c then warn m else ret tt) (at_idx s (S i) (S (S (S r))) o)
+                                = (Ok tt, at_idx s (S i) (S (S (S r))) o') /\ W o o')
+      end.
+      { match goal with |- context [if ?c then _ else _] => destruct c end.
+        - apply warn_at.
+        - exists o. split; [reflexivity | apply W_refl]. }
+      destruct Hw as (o' & Hw & HW). erewrite bind_ok by exact Hw.
+      exists (S i), (S (S (S r))), o'. split; [reflexivity|]. split; [|assumption].
+      intros; cbn [length]; lia.
+  Qed.
+
+  Lemma lands_ok {A} (v : A) i r o o0 iend :
+    i = iend -> W o0 o -> lands (Ok v, at_idx s i r o) (Ok v) iend o0.
+  Proof.
+    intros H HW. exists i, r, o. split; [reflexivity|]. split; [intros; assumption | assumption].
+  Qed.
+
+  (* the recursive call made by a parenthesis, ABS( or INT( *)
+  Lemma rec_lands e ts n i rest :
+    Sem 0 e ts -> skipn i toks = ts ++ TRightParen :: rest -> S n + pdepth e < max_nesting ->
+    exists f0, forall F, f0 <= F -> forall r o,
+      lands (evaluate_expression F (S n) (at_idx s i r o)) (den s e) (i + length ts) o.
+  Proof.
+    intros HS Hsk Hn. destruct (HS (S n) i (TRightParen :: rest) Hsk eq_refl Hn) as (f0 & H).
+    exists (S f0). intros F HF r o. destruct F as [|F]; [lia|].
+    rewrite evaluate_expression_ev by lia. apply H; lia.
+  Qed.
+
+  Lemma paren_lands F rec i r o ts rest R :
+    skipn i toks = TLeftParen :: ts ++ TRightParen :: rest ->
+    (forall r o, lands (rec (at_idx s (S i) r o)) R (S i + length ts) o) ->
+    lands (parenthesized_expression F rec (at_idx s i r o)) R (S (S (i + length ts))) o.
+  Proof.
+    intros Hsk Hrec. apply skipn_cons_nth in Hsk. destruct Hsk as [Hnth Hsk].
+    unfold parenthesized_expression.
+    erewrite bind_ok by (eapply accept_yes; [eassumption | eassumption | reflexivity]).
+    destruct (Hrec (S r) o) as (i' & r' & o' & E & Hi & HW).
+    erewrite bind_run by exact E.
+    destruct R as [v| | | |]; try (apply lands_err; [discriminate | assumption]).
+    rewrite (Hi v eq_refl). apply skipn_app_len in Hsk. apply skipn_cons_nth in Hsk.
+    destruct Hsk as [Hn2 _].
+    erewrite bind_ok by (eapply expect_ok; [eassumption | eassumption | reflexivity]).
+    apply lands_ok; [reflexivity | assumption].
+  Qed.
+
+  Lemma fn_arg_lands rec i r o ts rest R :
+    skipn i toks = TLeftParen :: ts ++ TRightParen :: rest ->
+    (forall r o, lands (rec (at_idx s (S i) r o)) R (S i + length ts) o) ->
+    lands (unary_number_function_arg rec (at_idx s i r o)) (num_of R) (S (S (i + length ts))) o.
+  Proof.
+    intros Hsk Hrec. apply skipn_cons_nth in Hsk. destruct Hsk as [Hnth Hsk].
+    unfold unary_number_function_arg.
+    erewrite bind_ok by (eapply expect_ok; [eassumption | eassumption | reflexivity]).
+    destruct (Hrec (S r) o) as (i' & r' & o' & E & Hi & HW).
+    erewrite bind_run by exact E.
+    destruct R as [[b|x]| | | |]; cbn [num_of];
+      try (apply lands_err; [discriminate | assumption]).
+    rewrite (Hi _ eq_refl). apply skipn_app_len in Hsk. apply skipn_cons_nth in Hsk.
+    destruct Hsk as [Hn2 _].
+    change (bind (expect_number (VNum x)) ?K ?s0) with (K x s0). cbv beta.
+    erewrite bind_ok by (eapply expect_ok; [eassumption | eassumption | reflexivity]).
+    apply lands_ok; [reflexivity | assumption].
+  Qed.
+
+  Lemma sem_paren e ts : Sem 0 e ts -> Sem 7 (EParen e) (TLeftParen :: ts ++ [TRightParen]).
+  Proof.
+    intros HS n i rest Hsk Hst Hn. cbn [pdepth] in Hn.
+    cbn [app] in Hsk. rewrite <- app_assoc in Hsk. cbn [app] in Hsk.
+    pose proof (proj2 (skipn_cons_nth _ _ _ _ Hsk)) as Hsk2.
+    destruct (rec_lands e ts n (S i) rest HS Hsk2 ltac:(lia)) as (f0 & H).
+    exists f0. intros F HF r o. rewrite ev_7. cbn [den].
+    replace (i + length (TLeftParen :: ts ++ [TRightParen])) with (S (S (i + length ts)))
+      by (cbn [length]; rewrite app_length; cbn [length]; lia).
+    eapply paren_lands; [eassumption|]. intros r0 o0. apply H; assumption.
+  Qed.
+
+  Lemma function_call_abs rec :
+    function_call rec (bs "ABS") =
+    (x <- unary_number_function_arg rec ;; ret (Some (VNum (f64_abs x)))).
+  Proof. reflexivity. Qed.
+
+  Lemma function_call_int rec :
+    function_call rec (bs "INT") =
+    (x <- unary_number_function_arg rec ;; ret (Some (VNum (f64_floor x)))).
+  Proof. reflexivity. Qed.
+
+  Lemma sem_fn name (g : f64 -> f64) e ts :
+    (forall rec, function_call rec name =
+                 (x <- unary_number_function_arg rec ;; ret (Some (VNum (g x))))) ->
+    Sem 0 e ts ->
+    forall n i rest,
+      skipn i toks = (TSymbol name :: TLeftParen :: ts ++ [TRightParen]) ++ rest ->
+      S n + pdepth e < max_nesting ->
+    exists f0, forall F, f0 <= F -> forall r o,
+      lands (ev 7 F n (at_idx s i r o))
+            (match den s e with
+             | Ok (VNum x) => Ok (VNum (g x))
+             | Ok (VStr _) => Err ETypeMismatch None
+             | other => other
+             end)
+            (i + length (TSymbol name :: TLeftParen :: ts ++ [TRightParen])) o.
+  Proof.
+    intros Hfc HS n i rest Hsk Hn.
+    cbn [app] in Hsk. rewrite <- app_assoc in Hsk. cbn [app] in Hsk.
+    apply skipn_cons_nth in Hsk. destruct Hsk as [Hnth Hsk].
+    pose proof (skipn_cons_nth _ _ _ _ Hsk) as [Hnth1 Hsk2].
+    destruct (rec_lands e ts n (S (S i)) rest HS Hsk2 Hn) as (f0 & H).
+    exists f0. intros F HF r o. rewrite ev_7.
+    erewrite paren_no by (try eassumption; reflexivity).
+    unfold expression_term.
+    erewrite bind_ok by (eapply next_unwrapped_some; eassumption).
+    cbv beta iota. erewrite bind_ok by (eapply peek_is_at; eassumption).
+    rewrite Hnth1. change (token_eqb TLeftParen TLeftParen) with true. cbv iota.
+    rewrite Hfc, bind_assoc.
+    replace (i + length (TSymbol name :: TLeftParen :: ts ++ [TRightParen]))
+      with (S (S (S i + length ts)))
+      by (cbn [length]; rewrite app_length; cbn [length]; lia).
+    destruct (fn_arg_lands (evaluate_expression F (S n)) (S i) (S (S (S r))) o ts rest (den s e) Hsk
+                (fun r0 o0 => H F HF r0 o0)) as (i' & r' & o' & E & Hi & HW).
+    erewrite bind_run by exact E.
+    destruct (den s e) as [[b|x]| | | |]; cbn [num_of] in *;
+      try (apply lands_err; [discriminate | assumption]).
+    apply lands_ok; [apply (Hi _ eq_refl) | assumption].
+  Qed.
+
+  Lemma sem_abs e ts : Sem 0 e ts ->
+    Sem 7 (EAbs e) (TSymbol (bs "ABS") :: TLeftParen :: ts ++ [TRightParen]).
+  Proof.
+    intros HS n i rest Hsk Hst Hn. cbn [pdepth] in Hn. cbn [den].
+    eapply (sem_fn _ f64_abs); eauto using function_call_abs. lia.
+  Qed.
+
+  Lemma sem_int e ts : Sem 0 e ts ->
+    Sem 7 (EInt e) (TSymbol (bs "INT") :: TLeftParen :: ts ++ [TRightParen]).
+  Proof.
+    intros HS n i rest Hsk Hst Hn. cbn [pdepth] in Hn. cbn [den].
+    eapply (sem_fn _ f64_floor); eauto using function_call_int. lia.
+  Qed.
+
+  Lemma sem_un op e ts : Sem 7 e ts -> Sem 6 (EUn op e) (unary_token op :: ts).
+  Proof.
+    intros HS n i rest Hsk Hst Hn. cbn [pdepth] in Hn. cbn [app] in Hsk.
+    apply skipn_cons_nth in Hsk. destruct Hsk as [Hnth Hsk].
+    destruct (HS n (S i) rest Hsk (stops_mono _ _ _ Hst (Nat.le_succ_diag_r 6)) Hn) as (f0 & H).
+    exists f0. intros F HF r o. rewrite ev_6. unfold unary_operator.
+    erewrite bind_ok by (eapply try_some; [eassumption | eassumption | apply unary_of_unary_token]).
+    destruct (H F HF (S r) o) as (i' & r' & o' & E & Hi & HW). rewrite ev_7 in E.
+    erewrite bind_run by exact E. cbn [den].
+    destruct (den s e) as [v| | | |]; try (apply lands_err; [discriminate | assumption]).
+    rewrite eval_unary_at.
+    destruct (fst (eval_unary op v s)) as [v'| | | |];
+      try (apply lands_err; [discriminate | assumption]).
+    apply lands_ok; [|assumption]. rewrite (Hi v eq_refl). cbn [length]. lia.
+  Qed.
+
+  Lemma sem_incl6 e ts : Renders 7 e ts -> Sem 7 e ts -> Sem 6 e ts.
+  Proof.
+    intros HR HS n i rest Hsk Hst Hn.
+    destruct (renders7_head _ _ HR) as (t & ts' & Hts & Hu).
+    destruct (HS n i rest Hsk (stops_mono _ _ _ Hst (Nat.le_succ_diag_r 6)) Hn) as (f0 & H).
+    exists f0. intros F HF r o. rewrite ev_6. unfold unary_operator.
+    assert (Hnth : nth_error toks i = Some t).
+    { subst ts. cbn [app] in Hsk. apply skipn_cons_nth in Hsk. tauto. }
+    erewrite bind_ok by (eapply try_none; [eassumption | intros t' Ht'; congruence]).
+    destruct (H F HF (S r) o) as (i' & r' & o' & E & Hi & HW). rewrite ev_7 in E.
+    erewrite bind_run by exact E.
+    destruct (den s e) as [v| | | |]; try (apply lands_err; [discriminate | assumption]).
+    apply lands_ok; [apply (Hi v eq_refl) | assumption].
+  Qed.
